@@ -11,10 +11,11 @@ Three-way discipline:
 """
 import datetime
 import math
+import re
 import struct
 
 from .. import wire
-from ..core import InfraError, shrink
+from ..core import InfraError, _jsonable, shrink
 
 DT = datetime.datetime
 MIN_EPOCH = -62135596800
@@ -41,6 +42,32 @@ def _objects():
     class T(datetime.datetime):
         pass
 
+    class NoHash:
+        __hash__ = None
+
+    class HashRaises:
+        def __hash__(self):
+            raise TypeError("unhashable")
+
+    class EqRaises:
+        def __eq__(self, other):
+            raise RuntimeError("no comparison")
+
+        __hash__ = object.__hash__
+
+    class LenRaises:
+        def __len__(self):
+            raise RuntimeError("no length")
+
+    class DictSub(dict):
+        pass
+
+    class ListSub(list):
+        pass
+
+    class Slots:
+        __slots__ = ()
+
     # name -> (value, lenient): lenient = numeric-like, a reader may treat it as an integer/float
     return {
         "None": (None, False), "True": (True, True), "False": (False, True), "list": ([1], False), "tuple": ((2023, 1, 1), False),
@@ -55,6 +82,14 @@ def _objects():
         "np.str": (numpy.str_("2023-04-18"), True), "np.bytes": (numpy.bytes_(b"2023-04-18"), True),
         "ellipsis": (Ellipsis, False), "range": (range(3), False), "lambda": (lambda: 0, False), "frozenset": (frozenset(), False),
         "float_str": ("1.5", False), "neg_str": ("-12", False), "exp_str": ("1e5", False),
+        # unhashable / hostile-but-legal objects (a cache keyed on the argument, or an `==` on it, would raise)
+        "unhashable_obj": (NoHash(), False), "hash_raises": (HashRaises(), False), "eq_raises": (EqRaises(), False),
+        "len_raises": (LenRaises(), False), "dictsub": (DictSub(), False), "listsub": (ListSub([1]), False),
+        "nested_list": ([[2023, 4, 18]], False), "dict_date": ({"year": 2023}, False), "set_text": ({"2023-04-18"}, False),
+        "bytearray_digits": (bytearray(b"1234"), False), "np.array_str": (numpy.array(["2023-04-18"]), False),
+        "np.array0d": (numpy.array(5), True), "np.float16": (numpy.float16(1.5), True), "np.nan64": (numpy.float64("nan"), True),
+        "Decimal_nan": (decimal.Decimal("NaN"), True), "Decimal_inf": (decimal.Decimal("Infinity"), True),
+        "generator": ((x for x in ()), False), "slots_obj": (Slots(), False), "exception": (ValueError("2023-04-18"), False),
     }
 
 
@@ -83,7 +118,28 @@ def render(c):
         t += "Z"
     elif suf[0] in ("plus", "minus"):
         t += ("+" if suf[0] == "plus" else "-") + "%02d:%02d" % (suf[1], suf[2])
+    elif suf[0] in ("plusb", "minusb"):
+        t += ("+" if suf[0] == "plusb" else "-") + "%02d%02d" % (suf[1], suf[2])
+    elif suf[0] in ("plush", "minush"):
+        t += ("+" if suf[0] == "plush" else "-") + "%02d" % suf[1]
     return t
+
+
+def sec_text(c):
+    """Text of an 'isotail' case: the seconds form followed by an arbitrary tail."""
+    y, m, d, H, M, S, _ = c["dt"]
+    return "%04d-%02d-%02d%s%02d:%02d:%02d" % (y, m, d, c["sep"], H, M, S) + c["tail"]
+
+
+def tail_read(t):
+    """Python mirror of `Iso.tailRead` (the tails after which a seconds-form rendering is read)."""
+    if len(t) > 14:
+        return False
+    u = t[:-1] if t.endswith("Z") else t
+    return "+" not in u or len(u.split("+")[0]) <= 9
+
+
+LISTED_TAIL = re.compile(r"^(\.[0-9]{1,9})?(Z|[+-][0-9]{2}(:?[0-9]{2})?)?$")
 
 
 def value_of(c):
@@ -94,6 +150,11 @@ def value_of(c):
     if k == "iso":
         t = render(c)
         return t.encode("utf-8") if c.get("enc") == "bytes" else t
+    if k == "isotail":
+        t = sec_text(c)
+        return t.encode("utf-8") if c.get("enc") == "bytes" else t
+    if k == "num":
+        return num_value(c["ty"], c["n"])
     if k == "text":
         return c["text"]
     if k == "bytes":
@@ -127,6 +188,32 @@ def value_of(c):
 
         return pandas.Timestamp(c["text"])
     raise InfraError("bad case kind %r" % (c,))
+
+
+NUM_TYPES = ["int", "float", "bool", "Decimal", "Fraction", "np.int64", "np.float64", "np.int32", "np.uint64", "np.float32",
+             "np.bool", "intsub", "floatsub", "str", "bytes", "np.str", "complex"]
+
+
+def num_value(ty, n):
+    """The number n as a value of the named type (all ==-equal to n where the type can hold it)."""
+    import decimal
+    import fractions
+
+    import numpy
+
+    class I(int):
+        pass
+
+    class F(float):
+        pass
+
+    return {
+        "int": lambda: int(n), "float": lambda: float(n), "bool": lambda: bool(n), "Decimal": lambda: decimal.Decimal(n),
+        "Fraction": lambda: fractions.Fraction(n), "np.int64": lambda: numpy.int64(n), "np.float64": lambda: numpy.float64(n),
+        "np.int32": lambda: numpy.int32(n), "np.uint64": lambda: numpy.uint64(n), "np.float32": lambda: numpy.float32(n),
+        "np.bool": lambda: numpy.bool_(n), "intsub": lambda: I(n), "floatsub": lambda: F(n), "str": lambda: str(n),
+        "bytes": lambda: str(n).encode(), "np.str": lambda: numpy.str_(str(n)), "complex": lambda: complex(n),
+    }[ty]()
 
 
 def model_input(v):
@@ -215,6 +302,23 @@ def expected(c, v):
         if c["form"] == "min":
             return ("value", [y, m, d, H, M, 0, 0])
         return ("value", [y, m, d, 0, 0, 0, 0])
+    if k == "isotail":
+        t = c["tail"]
+        if LISTED_TAIL.match(t) and tail_read(t):
+            # a fraction of 1..9 digits and / or Z / +HH:MM / +HHMM / +HH / -HH:MM / -HHMM / -HH, inside the parser's windows
+            return ("value", list(c["dt"][:6]) + [0])
+        return ("any",)
+    if k == "num":
+        n, ty = c["n"], c["ty"]
+        if ty in ("int", "str", "bytes"):
+            if n < 0 and ty != "int":
+                return ("none",)
+            return ("value", fields(DT(1970, 1, 1) + datetime.timedelta(seconds=n))) if MIN_EPOCH <= n <= MAX_EPOCH else ("none",)
+        if ty == "np.int64":
+            return ("either", fields(DT(1970, 1, 1) + datetime.timedelta(seconds=n))) if MIN_EPOCH <= n <= MAX_EPOCH else ("none",)
+        if ty in ("float", "np.float64") and MIN_EPOCH <= n <= MAX_EPOCH:
+            return ("floatsec", float(n), ty == "np.float64")
+        return ("any",)
     if k == "date":
         return ("value", list(c["ymd"]) + [0, 0, 0, 0])
     if k == "datetime":
@@ -284,6 +388,12 @@ def _norm(clause):
     return None if clause is None else clause.split(":")[0].split(" expected")[0]
 
 
+def PARSE():
+    from orso.tools import parse_iso
+
+    return parse_iso
+
+
 def impl_all(c, v):
     from orso.tools import parse_iso
     from orso.types import OrsoTypes
@@ -335,6 +445,15 @@ def evaluate(ctx, cases):
         if mi is not None and v is not None:
             slots.append((i, "parse"))
             lines.append("C08 parse " + wire.line(mi))
+            if mi[0] in ("str", "bytes"):
+                # the same text through the hand-written skeleton (what the lemmas reason about); the
+                # "parse" op runs the string branch regenerated from the source on this run
+                try:
+                    t = mi[1] if mi[0] == "str" else mi[1].decode("utf-8")
+                    slots.append((i, "skel"))
+                    lines.append("C08 parseskel " + wire.line(t))
+                except UnicodeDecodeError:
+                    pass
             if c.get("casts"):
                 for k in ("DATE", "TIMESTAMP", "TIME"):
                     slots.append((i, k))
@@ -342,12 +461,21 @@ def evaluate(ctx, cases):
         if c["kind"] == "iso":
             slots.append((i, "render"))
             lines.append("C08 render " + wire.line(c["form"], c["dt"], c["sep"], c["k"], c["suffix"]))
+        if c["kind"] == "isotail":
+            slots.append((i, "tailread"))
+            lines.append("C08 tailread " + wire.line(c["tail"]))
     mres = [dict() for _ in cases]
     for (i, what), o in zip(slots, ctx.model.batch(lines)):
         if not o.startswith("ok "):
             raise InfraError("model rejected %s of case %r: %r" % (what, cases[i], o))
-        mres[i][what] = wire.dec_all(o[3:])[0]
+        mres[i][what] = wire.dec_all(o[3:]) if what == "tailread" else wire.dec_all(o[3:])[0]
     for c, v, m in zip(cases, vals, mres):
+        if "tailread" in m:
+            t = c["tail"]
+            u = t[:-1] if t.endswith("Z") else t
+            cut = u.split("+")[0] if "+" in u else u
+            if m["tailread"] != [tail_read(t), cut]:
+                raise InfraError("model tailRead/cutTail %r differs from the Python mirror %r on %r" % (m["tailread"], [tail_read(t), cut], t))
         if "render" in m:
             t = render(c)
             if m["render"] != t:
@@ -358,8 +486,20 @@ def evaluate(ctx, cases):
                 if iso != t:
                     raise InfraError("harness rendering %r differs from datetime.isoformat %r" % (t, iso))
         out = impl_all(c, v)
+        again = outcome(PARSE(), v)
         ctx.case(c, True)
-        ctx.hit("kind:" + c["kind"] + (":" + c["form"] if c["kind"] == "iso" else ""))
+        if len(ctx.samples) < 6 and ctx.evaluations % 9973 == 1:
+            ctx.samples.append(_jsonable(c))
+        if again != out["parse"]:
+            ctx.fail(c, "parser gives different results for the same argument on a repeated call", impl={"first": out["parse"], "second": again})
+            continue
+        ctx.hit("kind:" + c["kind"] + (":" + c["form"] if c["kind"] == "iso" else "") + (":" + c["ty"] if c["kind"] == "num" else ""))
+        if c["kind"] in ("text", "bytes", "isotail", "iso"):
+            try:
+                L = len(v if isinstance(v, str) else v.decode("utf-8"))
+                ctx.hit("textlen:%s" % (L if L in (9, 10, 11, 15, 16, 17, 18, 19, 20, 28, 29, 32, 33, 34) else "other"))
+            except UnicodeDecodeError:
+                ctx.hit("textlen:undecodable")
         ctx.hit("outcome:" + out["parse"][0])
         if c["kind"] == "iso":
             ctx.hit("suffix:" + c["suffix"][0])
@@ -385,9 +525,17 @@ def evaluate(ctx, cases):
             mp = m["parse"]
             ip = out["parse"]
             if mp != ip:
-                ctx.disagree(c, ip, mp, "parse_iso vs Iso.parseIso")
+                ctx.disagree(c, ip, mp, "parse_iso vs Iso.parseIso (string branch regenerated from the source)")
+                continue
+            if "skel" in m and m["skel"] != ip:
+                ctx.disagree(c, ip, m["skel"], "parse_iso vs the hand-written skeleton Iso.textPath (the code has moved away from the proven skeleton)")
                 continue
             for k in ("DATE", "TIMESTAMP", "TIME"):
+                if k == "TIME" and isinstance(v, (str, bytes)) and ip == ["none"]:
+                    # text the parser does not read: parse_time then tries datetime.time.fromisoformat, which is outside the
+                    # model and outside the statement (only the DATE and TIMESTAMP casts are tied to the parser)
+                    ctx.hit("time-cast-of-unread-text:not-compared")
+                    continue
                 if k in m and cast_model_out(m[k]) != out[k]:
                     ctx.disagree(c, {k: out[k]}, {k: m[k]}, "OrsoTypes.%s.parse vs Iso.cast" % k)
                     break
@@ -396,7 +544,9 @@ def evaluate(ctx, cases):
 # --------------------------------------------------------------------------- generators
 
 SUFFIXES = lambda rng: [["none"], ["z"], ["plus", rng.randint(0, 14), rng.choice([0, 30, 45, 59])],
-                        ["minus", rng.randint(0, 12), rng.choice([0, 30, 59])]]
+                        ["minus", rng.randint(0, 12), rng.choice([0, 30, 59])],
+                        ["plusb", rng.randint(0, 14), rng.choice([0, 30, 45])], ["minusb", rng.randint(0, 12), rng.choice([0, 30])],
+                        ["plush", rng.randint(0, 14)], ["minush", rng.randint(0, 12)]]
 EDGE_DAYS = [(1, 1, 1), (1, 12, 31), (4, 2, 29), (100, 2, 28), (400, 2, 29), (999, 12, 31), (1000, 1, 1), (1582, 10, 10),
              (1900, 2, 28), (1969, 12, 31), (1970, 1, 1), (1999, 12, 31), (2000, 2, 29), (2024, 2, 29), (2038, 1, 19),
              (9999, 12, 31), (9999, 1, 1), (2023, 10, 9), (10, 10, 10)]
@@ -533,6 +683,117 @@ def text_cases(ctx, n):
             yield {"kind": "text", "text": text, "casts": rng.random() < 0.2}
 
 
+TAILS = ["", "Z", ".1", ".12", ".123", ".1234567", ".12345678", ".123456789", ".123456789Z", ".1234567890", ".12345678901234",
+         ".123456789012345", "+05:30", "-05:30", "+0530", "-0530", "+05", "-05", ".5+05:30", ".123456+05:30", ".123456-05:30",
+         ".1234567+05:30", ".12345678+05:30", ".123456789+05:30", ".123456789-05:30", ".123456789+0530", ".123456789+05",
+         ".1234567890+1", ".123456789+", "+", "++", "Z+", "+Z", "ZZ", "+05:30Z", "-05:30Z", "z", " UTC", " +05:30", ".", ".Z", ".+", "-", ":",
+         ":00", ".١", ".5é", "é", "+é", "\t", " ", "x" * 14, "x" * 15, "0" * 14, "+" * 14, "Z" * 14, "." + "9" * 13, "+" + "9" * 13]
+
+
+def tail_cases(ctx, n):
+    """The seconds form followed by every named tail (fractions of every length, every offset spelling, the boundaries of
+    both length windows) and by random tails; as text and as UTF-8 bytes."""
+    rng = ctx.rng
+    i = 0
+    for sep in ("T", " "):
+        dt = rand_dt(rng)
+        for t in TAILS:
+            i += 1
+            yield {"kind": "isotail", "dt": dt, "sep": sep, "tail": t, "enc": "bytes" if i % 3 == 0 else "str", "casts": i % 4 == 0}
+    for _ in range(n):
+        L = rng.choice([0, 1, 2, 5, 6, 8, 9, 10, 11, 13, 14, 15]) if rng.random() < 0.7 else rng.randint(0, 16)
+        r = rng.random()
+        if r < 0.4:
+            t = "".join(rng.choice(".0123456789+-:Z") for _ in range(L))
+        elif r < 0.8:  # a fraction, then an offset-like rest
+            k = rng.randint(0, min(L, 12))
+            t = ("." + "".join(rng.choice("0123456789") for _ in range(k - 1)) if k else "") + "".join(rng.choice("+-:Z0123456789") for _ in range(L - k))
+        else:
+            t = "".join(rng.choice(ALPHA) for _ in range(L))
+        yield {"kind": "isotail", "dt": rand_dt(rng), "sep": rng.choice("T "), "tail": t, "enc": "bytes" if rng.random() < 0.25 else "str",
+               "casts": rng.random() < 0.1}
+
+
+def boundary_cases(ctx):
+    """Deterministic: every total length 8..36 for each of the three forms (cut or padded), with each padding character,
+    and a `+` / `Z` / `-` / `.` planted at every offset — exactly at and one past every threshold in the source
+    (10, 16, 19 characters; windows 10..33 and 10..28 before the `+`; subscripts 4, 7, 10, 13, 16)."""
+    bases = ["2023-04-18", "2023-04-18T12:34", "2023-04-18 12:34:56", "0001-01-01T00:00:00", "9999-12-31 23:59:59"]
+    seen = set()
+    for b in bases:
+        for L in range(8, 37):
+            for pad in "0 .-:Z+x9":
+                t = (b + pad * 40)[:L]
+                if t not in seen:
+                    seen.add(t)
+                    yield {"kind": "text", "text": t, "casts": L in (10, 16, 19)}
+        for ch in "+Z-.:T x":
+            for pos in range(0, 34):
+                for total in (len(b), 19, 28, 29, 30, 33, 34):
+                    t = list((b + ".123456789012345678901234567890")[:total])
+                    if pos < len(t):
+                        t[pos] = ch
+                        t = "".join(t)
+                        if t not in seen:
+                            seen.add(t)
+                            yield {"kind": "text", "text": t}
+    for t in list(seen)[:0]:
+        pass
+
+
+def num_cases(ctx, n):
+    """==-equal numbers of different types, each judged on its own: 1, 1.0, True, Decimal(1), Fraction(1), numpy scalars, the
+    digits as text / bytes — in fresh random orders, so that an answer remembered from an equal argument of another type shows."""
+    rng = ctx.rng
+    vals = [0, 1, 2, 59, 86399, 86400, 2**24 - 1] + [rng.randint(0, 2**24 - 1) for _ in range(n)]
+    for v in vals:
+        tys = [t for t in NUM_TYPES if not (t in ("bool", "np.bool") and v > 1)]
+        rng.shuffle(tys)
+        for t in tys:
+            yield {"kind": "num", "ty": t, "n": v, "casts": t in ("int", "bool", "Decimal", "str")}
+
+
+def seq_cases(ctx, n):
+    """Sequences on one interpreter: the ==-class of a fresh number n1 in one order, then the ==-class of another fresh number
+    n2 in the reverse order; for every type the two answers must be the same function of the number."""
+    rng = ctx.rng
+    yield {"kind": "seq", "n": [1, 0], "order": ["int", "bool", "float", "np.bool", "Decimal", "np.int64", "str"]}
+    yield {"kind": "seq", "n": [0, 1], "order": ["bool", "Fraction", "int", "np.float64", "bytes"]}
+    for _ in range(n):
+        order = [t for t in NUM_TYPES if t not in ("bool", "np.bool")]
+        rng.shuffle(order)
+        a, b = rng.sample(range(2, 2**24), 2)
+        yield {"kind": "seq", "n": [a, b], "order": order[: rng.randint(3, len(order))]}
+
+
+def norm_num(out, n):
+    """Outcome of parse_iso(<n as some type>) as a function of n: 'none', 'epoch' (the date-time of second n), or the raw outcome."""
+    if out[0] == "value" and out[1] == fields(DT(1970, 1, 1) + datetime.timedelta(seconds=n)):
+        return "epoch"
+    return out[0] if out[0] == "none" else out
+
+
+def evaluate_seq(ctx, c):
+    parse = PARSE()
+    n1, n2 = c["n"]
+    first = {t: outcome(parse, num_value(t, n1)) for t in c["order"]}
+    second = {t: outcome(parse, num_value(t, n2)) for t in reversed(c["order"])}
+    ctx.case(c, True)
+    ctx.hit("kind:seq")
+    ctx.hit("seq-calls", 2 * len(c["order"]))
+    for t in c["order"]:
+        for n, o in ((n1, first[t]), (n2, second[t])):
+            item = {"kind": "num", "ty": t, "n": n}
+            cl = check(expected(item, None), o)
+            if cl:
+                ctx.fail(c, "in a sequence of calls with ==-equal arguments of different types: " + cl, impl={"type": t, "n": n, "outcome": o, "first_pass": first, "second_pass": second})
+                return
+        if norm_num(first[t], n1) != norm_num(second[t], n2):
+            ctx.fail(c, "parser result depends on earlier calls with ==-equal arguments of other types (not a function of its argument)",
+                     impl={"type": t, "first_pass": first, "second_pass": second})
+            return
+
+
 def native_cases(ctx, n):
     rng = ctx.rng
     for y, m, d in EDGE_DAYS:
@@ -605,8 +866,10 @@ def sweep_years(ctx, years):
         for d, t in zip(days, texts):
             r = parse_iso(t)
             if r != DT(d.year, d.month, d.day):
-                c = {"kind": "iso", "form": "date", "dt": [d.year, d.month, d.day, 0, 0, 0, 0], "sep": "T", "k": 0, "suffix": ["none"]}
-                evaluate(ctx, [c])
+                ctx.hit("calendar-sweep-mismatch")
+                if ctx.dist["calendar-sweep-mismatch"] <= 3:  # judged by the ordinary pipeline; a few are enough
+                    c = {"kind": "iso", "form": "date", "dt": [d.year, d.month, d.day, 0, 0, 0, 0], "sep": "T", "k": 0, "suffix": ["none"]}
+                    evaluate(ctx, [c])
         ctx.evaluations += len(days)
         ctx.hit("calendar-days", len(days))
 
@@ -622,8 +885,10 @@ def sweep_seconds(ctx, ymd, step):
         t = "%04d-%02d-%02dT%02d:%02d:%02d" % (y, m, d, H, M, S)
         want = DT(y, m, d, H, M, S)
         if parse_iso(t) != want or parse_iso(e0 + s) != want:
-            evaluate(ctx, [{"kind": "iso", "form": "sec", "dt": [y, m, d, H, M, S, 0], "sep": "T", "k": 0, "suffix": ["none"]},
-                           {"kind": "int", "n": e0 + s}])
+            ctx.hit("seconds-sweep-mismatch")
+            if ctx.dist["seconds-sweep-mismatch"] <= 3:
+                evaluate(ctx, [{"kind": "iso", "form": "sec", "dt": [y, m, d, H, M, S, 0], "sep": "T", "k": 0, "suffix": ["none"]},
+                               {"kind": "int", "n": e0 + s}])
     ctx.evaluations += 86400 // step
     ctx.hit("seconds-of-day", 86400 // step)
 
@@ -641,7 +906,21 @@ def batches(ctx, it, size=4000):
     evaluate(ctx, buf)
 
 
+def non_utc_local_time():
+    """The statement says Unix seconds are read *in UTC*: give the process a local time zone that is never UTC (half-hour
+    offset, daylight saving) so that a read in local time cannot coincide with the UTC reading."""
+    import os
+    import time
+
+    os.environ["TZ"] = "America/St_Johns"
+    time.tzset()
+    if time.localtime(0).tm_hour == 0 and time.localtime(0).tm_min == 0:
+        return "local time zone could not be changed (tzset without effect): a local-time read is not distinguishable here"
+    return "process local time zone set to America/St_Johns (UTC-03:30 / -02:30) during the run"
+
+
 def run(ctx):
+    ctx.note("local_time_zone", non_utc_local_time())
     ctx.note("rule", "one case = one input value (a rendering variant of a date-time, an epoch number, a text/bytes, a native or foreign "
              "object) given to parse_iso (and to the DATE/TIMESTAMP/TIME casts when 'casts'); all counted cases are non-trivial; "
              "distinct by canonical JSON; calendar-sweep days are counted in evaluations only")
@@ -672,17 +951,27 @@ def run(ctx):
     batches(ctx, epoch_cases(ctx, ctx.scale(5000, 40000)))
     batches(ctx, native_cases(ctx, ctx.scale(1000, 8000)))
     batches(ctx, text_cases(ctx, ctx.scale(10000, 80000)))
-    batches(ctx, iso_cases(ctx, ctx.scale(200, 1500)))
+    batches(ctx, iso_cases(ctx, ctx.scale(120, 900)))
+    batches(ctx, tail_cases(ctx, ctx.scale(3000, 30000)))
+    batches(ctx, boundary_cases(ctx))
+    batches(ctx, num_cases(ctx, ctx.scale(40, 400)))
+    for c in seq_cases(ctx, ctx.scale(60, 600)):
+        evaluate_seq(ctx, c)
 
 
 def intensify(ctx):
+    batches(ctx, tail_cases(ctx, 10000))
     batches(ctx, text_cases(ctx, 20000))
     batches(ctx, epoch_cases(ctx, 10000))
     batches(ctx, iso_cases(ctx, 150))
 
 
 def replay(ctx, case):
-    evaluate(ctx, [case])
+    non_utc_local_time()
+    if case.get("kind") == "seq":
+        evaluate_seq(ctx, case)
+    else:
+        evaluate(ctx, [case])
 
 
 KNOWN_PREDICATES = {}
